@@ -206,7 +206,8 @@ def run(report):
                     lambda ex, ctx, out, info: iter([
                         ("internal-name-is-a-fresh-generated-name(prefix-SYM)", z3.BoolVal(ctx.ghost.get("next_name_prefix") == "SYM" and ctx.ghost.get("sym_new") is not None and
                                                                                          ctx.ghost["sym_new"][0][1] is fresh)),
-                        ("display-name-is-not-used-as-the-SymPy-name;assumptions-forwarded", z3.BoolVal(ctx.ghost.get("sym_new") is not None and ctx.ghost["sym_new"][1] == {"real": True}))]))
+                        ("display-name-is-not-used-as-the-SymPy-name;assumptions-forwarded", z3.BoolVal(ctx.ghost.get("sym_new") is not None and ctx.ghost["sym_new"][1] == {"real": True}))]),
+                    concretize=lambda model, name: try_replay("from vf.props.c09_names import replay_bounded\nreplay_bounded()\n"))
     execs.append(ex)
 
     # ---------------- coordinate systems: every construction / transform draws a fresh SYS name for a NEW inner system
@@ -376,6 +377,16 @@ def bounded_aliasing(report):
         sol = sp.solve(sp.Eq(v * s[(i + 1) % len(s)], 1), v)
         if sol != [1 / s[(i + 1) % len(s)]]:
             failures.append({"name": "C09/bounded/solve-affects-another-symbol", "detail": str(sol), "replay": {"reproduced": True, "script": None}})
+    # display names of which one is another followed by digits (a generated name built from "<display name><counter>" would collide)
+    fam = [Symbol("qx", units.length) for _ in range(12)] + [Symbol("qx1", units.time), Symbol("qx11", units.mass), Symbol("qx12", units.time), Symbol("q", units.mass),
+                                                                Symbol("qx_1", units.time)]
+    want_names = ["qx"] * 12 + ["qx1", "qx11", "qx12", "q", "qx_1"]
+    want_dims = [units.length] * 12 + [units.time, units.mass, units.time, units.mass, units.time]
+    count += len(fam)
+    if len({id(o) for o in fam}) != len(fam) or len(set(fam)) != len(fam) or [o.display_name for o in fam] != want_names or \
+            any(o.dimension != d for o, d in zip(fam, want_dims)) or len({o.name for o in fam}) != len(fam):
+        failures.append({"name": "C09/bounded/symbols-with-digit-suffixed-display-names-alias", "detail": str([(o.name, o.display_name, str(o.dimension)) for o in fam]),
+                         "replay": {"reproduced": True, "script": None}})
     fa, fb = fns[0], fns[1]
     t = objs[0]
     count += 2
